@@ -117,9 +117,13 @@ func solveOne(ob *Obligation, dir string, quick, full time.Duration, twoUnsat bo
 		qctx, qcancel := context.WithCancel(context.Background())
 		quickSet := []solverSpec{solvers[0], solvers[1], solvers[3]}
 		qch := make(chan solveResult, len(quickSet))
+		q1 := quick
+		if len(ob.Splits) >= 2 && ob.Expect == "unsat" && q1 > 2*time.Second {
+			q1 = 2 * time.Second // a case split is available: fall back to it early
+		}
 		for _, s := range quickSet {
 			s := s
-			go func() { qch <- runSolver(qctx, s, file, quick) }()
+			go func() { qch <- runSolver(qctx, s, file, q1) }()
 		}
 		for i := 0; i < len(quickSet); i++ {
 			r := <-qch
@@ -131,6 +135,12 @@ func solveOne(ob *Obligation, dir string, quick, full time.Duration, twoUnsat bo
 			}
 		}
 		qcancel()
+	}
+	if len(ob.Splits) >= 2 && ob.Expect == "unsat" {
+		if r, ok := solveSplit(ob, file, quick); ok {
+			finish(r)
+			return
+		}
 	}
 	ctx, cancel := context.WithCancel(context.Background())
 	defer cancel()
@@ -172,4 +182,68 @@ func solveAll(obs []*Obligation, dir string, quick, full time.Duration, workers 
 	}
 	close(ch)
 	wg.Wait()
+}
+
+// solveSplit decides an obligation by cases: one query per path merged at the last join before the
+// obligation, plus one showing the cases are exhaustive. All unsat: discharged. A case that is sat
+// is a counterexample of the whole obligation (it only adds a path condition).
+func solveSplit(ob *Obligation, file string, timeout time.Duration) (solveResult, bool) {
+	const tail = "(check-sat)\n"
+	if !strings.HasSuffix(ob.Script, tail) {
+		return solveResult{}, false
+	}
+	base := ob.Script[:len(ob.Script)-len(tail)]
+	cases := append([]string{}, ob.Splits...)
+	cases = append(cases, "(not (or "+strings.Join(ob.Splits, " ")+"))")
+	type res struct {
+		r solveResult
+		i int
+	}
+	ch := make(chan res, len(cases))
+	ctx, cancel := context.WithCancel(context.Background())
+	defer cancel()
+	quickSet := []solverSpec{solvers[0], solvers[1], solvers[3]}
+	t0 := time.Now()
+	for i, c := range cases {
+		i, c := i, c
+		go func() {
+			f := fmt.Sprintf("%s.case%d.smt2", strings.TrimSuffix(file, ".smt2"), i)
+			os.WriteFile(f, []byte(base+"(assert "+c+")\n"+tail+"(get-model)\n"), 0o644)
+			defer os.Remove(f)
+			cctx, ccancel := context.WithCancel(ctx)
+			defer ccancel()
+			rc := make(chan solveResult, len(quickSet))
+			for _, s := range quickSet {
+				s := s
+				go func() { rc <- runSolver(cctx, s, f, timeout) }()
+			}
+			out := solveResult{verdict: "unknown"}
+			for range quickSet {
+				r := <-rc
+				if r.verdict == "unsat" || (r.verdict == "sat" && r.solver != solvers[1].name) {
+					out = r
+					break
+				}
+			}
+			ch <- res{out, i}
+		}()
+	}
+	var secs float64
+	var last solveResult
+	for range cases {
+		x := <-ch
+		secs += x.r.secs
+		switch x.r.verdict {
+		case "sat":
+			x.r.solver = fmt.Sprintf("%s (case %d of %d)", x.r.solver, x.i+1, len(cases))
+			return x.r, true
+		case "unknown":
+			return solveResult{}, false
+		}
+		last = x.r
+	}
+	last.verdict = "unsat"
+	last.solver = fmt.Sprintf("case split over %d paths (z3-new 5.1.0 / cvc5 1.0)", len(cases)-1)
+	last.secs = time.Since(t0).Seconds()
+	return last, true
 }
